@@ -43,7 +43,7 @@ impl Check for TwoHandles {
         "C10"
     }
     fn budget(&self, tier: &str) -> usize {
-        if tier == "thorough" { 40_000 } else { 3000 }
+        if tier == "thorough" { 500_000 } else { 20_000 }
     }
     fn gen_case(&self, seed: u64, _idx: usize, _tier: &str, _avoid: &[String]) -> Case {
         let mut rng = Rng::new(seed, "workload");
@@ -253,7 +253,7 @@ impl Check for BackupCheck {
         "C29"
     }
     fn budget(&self, tier: &str) -> usize {
-        if tier == "thorough" { 30_000 } else { 1500 }
+        if tier == "thorough" { 250_000 } else { 8_000 }
     }
     fn gen_case(&self, seed: u64, _idx: usize, _tier: &str, avoid: &[String]) -> Case {
         let mut rng = Rng::new(seed, "workload");
